@@ -2857,7 +2857,9 @@ bus_verif_dump_activation (BusActivation *activation,
           BusPendingActivationEntry *e = link->data;
 
           if (!_dbus_string_append_printf (out, "%s/%d/%u,",
-                                           e->connection != NULL && bus_connection_is_active (e->connection) ?
+                                           e->connection != NULL &&
+                                           dbus_connection_get_is_connected (e->connection) &&
+                                           bus_connection_is_active (e->connection) ?
                                              bus_connection_get_name (e->connection) : "(none)",
                                            e->auto_activation,
                                            e->activation_message ? dbus_message_get_serial (e->activation_message) : 0))
